@@ -187,13 +187,21 @@ func main() {
 		}
 		return
 	}
-	r := &rng{s: *seed*0x9e3779b97f4a7c15 + 0x1234567}
+	// the state is a scrambled function of the seed: with s = seed*gamma + c, consecutive seeds would give
+	// the same SplitMix64 sequence shifted by one draw, and the shards of a run (seeds k, k+1, ...) would overlap
+	r := &rng{s: mix64(*seed*0x9e3779b97f4a7c15+0x1234567) ^ mix64(^*seed)}
 	g, ok := streams[*stream]
 	if !ok {
 		fmt.Fprintf(os.Stderr, "unknown stream %q\n", *stream)
 		os.Exit(2)
 	}
 	g(r, *n)
+}
+
+func mix64(z uint64) uint64 {
+	z = (z ^ (z >> 30)) * 0xbf58476d1ce4e5b9
+	z = (z ^ (z >> 27)) * 0x94d049bb133111eb
+	return z ^ (z >> 31)
 }
 
 var streams = map[string]func(r *rng, n int){}
